@@ -104,11 +104,21 @@ def run(ctx):
     for i in range(n_prog):
         p = gen_program(rng, dict(hw=(i % 3 == 0), inline=(i % 4 == 0), bait=(i % 2 == 0)))
         s = p.source()
+        if i % 3 == 1:
+            # the two-word spelling of the 16-bit type: the gap between the words is layout too
+            s = re.sub(r'\bshort (?!int)', 'short int ', s)
         if i % 2 == 0:
             # literals among the decorated tokens (their content is C09's business; here: a comment
             # next to a literal must not disturb the line)
             s = 'const char lit0[] = "ab";\nconst char *lt[2] = {"c", "d//e"};\n' + s
         srcs['p%d' % i] = {'plain': s, 'deco': decorate(rng, s), 'deco2': decorate(rng, s)}
+    # the fixed enumeration of the bait families (tools/lib/gen_c.py): comments / the listing option must not matter there either
+    from lib.gen_c import directed_programs
+    lfirst = {}
+    for k, p_ in directed_programs().items():
+        s_ = p_.source()
+        lfirst['d' + k] = {'plain': s_, 'deco': decorate(rng, s_), 'deco2': decorate(rng, s_)}
+    srcs = dict(list(lfirst.items()) + list(srcs.items())) if not quick else dict(list(lfirst.items())[::3] + list(srcs.items()))
     for k, (a, b) in WITNESS.items():
         srcs[k] = {'plain': a, 'deco': b, 'deco2': b}
     viol = []
@@ -138,7 +148,7 @@ def run(ctx):
                 viol.append({'id': pid, 'why': 'emitted instructions differ', 'plain': srcs[pid]['plain'], 'decorated': srcs[pid][vn]})
                 break
     # listing options: --insert-code on/off
-    lsrcs = {pid: v['deco'] for pid, v in list(srcs.items())[:(150 if quick else 3000)] if pid not in WITNESS}
+    lsrcs = {pid: v['deco'] for pid, v in list(srcs.items())[:(300 if quick else 4000)] if pid not in WITNESS}
     lcomp = compile_variants(lsrcs, {'O0': ['-O0'], 'O0i': ['-O0', '--insert-code'], 'O1': ['-O1'], 'O1i': ['-O1', '--insert-code', '-W', 'all']})
     ok = {}
     for pid, vs in lcomp.items():
